@@ -559,8 +559,15 @@ func newEnvironment(userVars map[string]string, newId uid.ID) (env *Environment,
 
 				} else if e.Event == "STOP_ACTIVITY" {
 					runEndCompletionTime := time.Now()
-					runEndCompletionTimeStr := strconv.FormatInt(runEndCompletionTime.UnixMilli(), 10)
-					env.workflow.SetRuntimeVar("run_end_completion_time_ms", runEndCompletionTimeStr)
+					endCompletionTime, ok := env.workflow.GetUserVars().Get("run_end_completion_time_ms")
+					if ok && endCompletionTime == "" {
+						runEndCompletionTimeStr := strconv.FormatInt(runEndCompletionTime.UnixMilli(), 10)
+						env.workflow.SetRuntimeVar("run_end_completion_time_ms", runEndCompletionTimeStr)
+					} else {
+						// e.g. a forced teardown while RUNNING which failed to release its tasks has already ended this run
+						log.WithField("partition", envId.String()).
+							Debug("O2 End Completion time already set before after_STOP_ACTIVITY")
+					}
 
 					runEvent := &pb.Ev_RunEvent{
 						EnvironmentId:    envId.String(),
